@@ -99,7 +99,13 @@ def truth(test, facts, cc):
             return False
         return True if all(v is True for v in res) else None
     at = cc.truthy(U(test))
-    return _atom_truth(at, facts)
+    r = _atom_truth(at, facts)
+    if r is None and isinstance(test, ast.Name):
+        # a local flag whose current definition on this path is a boolean literal
+        for a in facts:
+            if a[0] == 'def' and a[1] == test.id and a[2] in ('True', 'False'):
+                return a[2] == 'True'
+    return r
 
 
 def _atom_truth(at, facts):
@@ -256,7 +262,7 @@ class FactMap:
     forks); beyond the cap the sets are joined (intersection).  ``facts_at`` returns the join over
     all paths reaching a node, ``paths_at`` the individual per-path fact sets."""
 
-    PATH_CAP = 64
+    PATH_CAP = 2048
 
     def __init__(self, func_node, assume=(), aliases=None, extra_terminators=()):
         self.node = func_node
